@@ -76,6 +76,8 @@ class _Only:
 
     def __init__(self, ck, keep):
         self.ck, self.keep, self.extra = ck, keep, ck.extra
+        self.tier = getattr(ck, 'tier', 'quick')
+        self.samples = getattr(ck, 'samples', [])
 
     def rule(self, rid, text, floor=0):
         return self.ck.rule(rid, text, floor=floor) if rid.split('.', 1)[1] in self.keep else None
